@@ -10,6 +10,7 @@ import H263V.Spec.Bt601
 import H263V.Spec.AnnexJ
 import H263V.Gen.Tables
 import H263V.Model.Show
+import H263V.Spec.GenCases
 
 open H263V H263V.Util H263V.Show H263V.State
 
@@ -58,6 +59,10 @@ def runP (full : Bool) (o : Nat) (ops : String) : String := Id.run do
     else if op.startsWith "a:" then
       match unhex (op.drop 2).toString with
       | some b => cur := { cur with bits := cur.bits ++ bytesToBits b.toList }; res := "app"
+      | none => res := "bad-op"
+    else if op.startsWith "r:" then
+      match unhex (op.drop 2).toString with
+      | some b => cur := { bits := bytesToBits b.toList, pos := 0 }; decode := true
       | none => res := "bad-op"
     else if op == "n" then decode := true
     else if op == "c" then st := st.cleanup; res := "cleanup"
@@ -141,7 +146,11 @@ partial def loop (h : IO.FS.Stream) (out : IO.FS.Stream) : IO Unit := do
   out.putStrLn (runLine l)
   loop h out
 
-def main : IO Unit := do
+def main (args : List String) : IO Unit := do
   let stdin ← IO.getStdin
   let stdout ← IO.getStdout
-  loop stdin stdout
+  match args with
+  | ["GEN", kind, seed, count] =>
+    for l in Spec.GenCases.runGen kind seed.toNat! count.toNat! do
+      stdout.putStrLn l
+  | _ => loop stdin stdout
